@@ -44,6 +44,7 @@ THOROUGH_EXTRA = {  # chunk size 1 lives in its own binary
     "C07": ("c1", ("pegsim-c1", ["--only-set", "7"])),
 }
 RUNS = {"quick": 2_000_000, "thorough": 60_000_000}
+STALL_S = int(os.environ.get("PEGSIM_STALL_S", "60"))
 RUNS_BY_PROP = {  # checks with slower job kinds (I/O jobs, coverage maps, tree comparison)
     "C07": {"quick": 800_000, "thorough": 24_000_000},
     "C08": {"quick": 800_000, "thorough": 24_000_000},
@@ -156,13 +157,37 @@ def main():
     def chain(bi, binary, extra, w):
         exe = os.path.join(BUILD, binary)
         begin = 0
+        stalls = 0
         outs, fatals, harness = [], [], []
         for attempt in range(40):
             out = os.path.join(workdir, f"b{bi}w{w}r{attempt}")
             cmd = [exe, "run", "--check", prop, "--seed", str(seed), "--begin", str(begin), "--end", str(total),
                    "--stride", str(nw), "--offset", str(w), "--tier", tier, "--out", out] + extra
             with open(out + ".err", "w") as errf:
-                rc = subprocess.call(cmd, stdout=errf, stderr=errf)
+                # watchdog: a worker whose current index does not change for STALL_S seconds is stuck inside one
+                # run (a loop in the library that makes no progress); it is killed and the index reported like a crash
+                p = subprocess.Popen(cmd, stdout=errf, stderr=errf)
+                last_idx, last_t = None, time.time()
+                while True:
+                    try:
+                        rc = p.wait(timeout=5)
+                        break
+                    except subprocess.TimeoutExpired:
+                        pass
+                    cur = None
+                    try:
+                        with open(out + ".status", "rb") as f:
+                            cur = f.read(8)
+                    except OSError:
+                        pass
+                    if cur != last_idx:
+                        last_idx, last_t = cur, time.time()
+                    elif time.time() - last_t > STALL_S:
+                        p.kill()
+                        rc = p.wait()
+                        errf.write(f"\ncheck.py: killed after {STALL_S} s without progress\n")
+                        stalls += 1
+                        break
             outs.append(out)
             finished = False
             try:
@@ -187,6 +212,9 @@ def main():
                 break
             fatals.append((idx, "asan" if marker == 2 else "crash", rc, exe, extra, out))  # marker 3 = SIGABRT (failed assert)
             begin = idx + 1
+            if stalls >= 2:
+                print(f"note: worker b{bi}w{w} got stuck twice; its share of the batch is truncated at index {begin}")
+                break
         else:
             print(f"note: worker b{bi}w{w} died more than 40 times; its share of the batch is truncated at index {begin}")
         return outs, fatals, harness
